@@ -107,8 +107,14 @@ func (e *Enc) call(in *ssa.Call, st *State) {
 		if key := ifaceMethodKey(c.Method); e.db.isPureIface(c.Method) {
 			e.note("interface method %s is assumed pure (uninterpreted function of receiver and arguments)", key)
 			rv := e.ufApply("iface."+key, append([]ssa.Value{c.Value}, c.Args...), in.Type())
-			if e.db.nonnilIface[key] && len(rv.c) == 1 {
+			nn := e.db.nonnilIface[key]
+			if i := strings.LastIndex(key, "."); i > 0 && e.db.nonnilIface[key[:i]+".*"] {
+				nn = true
+			}
+			if nn && len(rv.c) == 1 && leaves(in.Type())[0].sort == "Ref" {
 				e.assume(not(eq(rv.c[0], "null")))
+			} else if nn && len(rv.c) == 2 {
+				e.assume(not(eq(rv.c[0], "0")))
 			}
 			e.set(in, rv)
 			return
@@ -491,6 +497,13 @@ func (e *Enc) staticCallV(in *ssa.Call, callee *ssa.Function, args []ssa.Value, 
 	if e.db.pureFns[callee.String()] {
 		e.note("dependency function %s is assumed pure (uninterpreted function of its arguments)", callee.String())
 		res := e.ufTerm("pure."+callee.String(), argv, in.Type())
+		if e.db.nonnilFns[callee.String()] {
+			if len(res.c) == 1 {
+				e.assume(not(eq(res.c[0], "null")))
+			} else if len(res.c) == 2 {
+				e.assume(not(eq(res.c[0], "0")))
+			}
+		}
 		e.set(in, res)
 		e.siteResults[fmt.Sprintf("%s#%d", cn, e.lastOrd[cn])] = res
 		return
